@@ -43,7 +43,7 @@ META = dict(
                 "Beyond the bounds: spec/C14Core.tla - Apalache proves that inside + aligned + a whole positive number of cells is an inductive "
                 "invariant of translation, scaling by any non-zero integer factor about any point and the half turn on the 1-d integer "
                 "lattice with unbounded coordinates (2 obligations, about 5 s each; reported in the evidence)."),
-    technique="TLA+ lattice model (Lattice.tla, C14.tla) + TLC exhaustive; spec states replayed into code; code traces validated by TLC (C14Trace.tla); Apalache inductive invariant of the unbounded 1-d core (C14Core.tla)",
+    technique="TLA+ lattice model (Lattice.tla, C14.tla) + TLC exhaustive; spec states replayed into code; code traces validated by TLC (C14Trace.tla); Apalache inductive invariant of the unbounded 1-d core (C14Core.tla), the same as a TLAPS proof (C14CoreProof.tla)",
     design_ref="DESIGN.md section 7 C14",
 )
 
@@ -778,6 +778,7 @@ def run(ctx):
     # the unbounded integer core (spec/C14Core.tla): Apalache discharges the inductive invariant
     from .. import apalache
     apalache.run_stage(ctx, module="C14Core.tla", claim=apalache.C14_CLAIM)
+    apalache.tlaps_stage(ctx, "C14CoreProof.tla", needs=("C14Core.tla",))   # the same two facts as a checked proof (157 obligations)
     r = ctx.model("MC_C14", f"C14_{ctx.tier}.cfg", dump=True)
     if r.ok:
         with open(r.dump) as fh:
